@@ -358,7 +358,7 @@ def main2(prop, cfg, tier, seed, scratch, instr_stats, replay_mode, t_start):
                         if hangs <= 8 and idx + 1 < hi and time.time() < phase_deadline - 30:
                             pending.append((idx + 1, hi))
                         elif idx + 1 < hi:
-                            notes.append("phase %s: more than 8 runs hung; the rest of range %d-%d was not explored" % (engine, idx + 1, hi))
+                            notes.append("phase %s: %d runs hung (resumed after at most 8, and only while the phase budget lasts); the rest of range %d-%d was not explored" % (engine, hangs, idx + 1, hi))
                         continue
                     is_race = race and p.returncode == 66
                     cls = "data-race" if is_race else "worker-died"
